@@ -106,6 +106,25 @@ func (c *Ctx) check(cond bool, rule, construct, pos, okDetail, badDetail string,
 	return cond
 }
 
+// keep restricts the obligations of this check to those relevant for its
+// property: rules are shared between properties, but a property only answers
+// for the rows that are necessary conditions of *it* (so that a change which
+// breaks another property does not raise an alarm here).
+func (c *Ctx) keep(pred func(o Obligation) bool) {
+	var out []Obligation
+	c.seen = map[string]int{}
+	for _, o := range c.Obls {
+		// undecided / internal failures are never dropped
+		if o.Status == Undecided || strings.HasPrefix(o.Rule, "META.") || pred(o) {
+			c.seen[o.Key()] = len(out)
+			out = append(out, o)
+		}
+	}
+	c.Obls = out
+	// vacuity guards are re-declared by the caller for the kept subset
+	c.MinCounts = map[string]int{}
+}
+
 // min declares the vacuity guard of a rule.
 func (c *Ctx) min(rule string, n int) { c.MinCounts[rule] = n }
 
